@@ -1,7 +1,22 @@
-(* C16 - property theorems only.  Each is closed by `exact <lemma>` and followed by Print Assumptions. *)
+(* C16 - property theorems only.  Each is closed by `exact <lemma>` and followed by Print Assumptions.
+
+   Vocabulary (Model.v / ProofsSafe.v / ProofsMain.v):
+   - `reach fx s k D`: IPSets state s, kernel k and desired sets D (set id -> metadata, members) are reachable from
+     the initial state by ANY sequence of API calls, ApplyUpdates / ApplyDeletions runs with ANY choices the code can
+     make (map iteration orders, which command fails and how, how many retries, full/background/partial resyncs) and
+     ANY change to the kernel by somebody else between two of Felix's operations (so the starting kernel, with stale
+     temporary sets and foreign sets, is arbitrary).  fx = with/without the repair of fixes/C16-*.patch.
+   - `ev`: the kernel-changing commands one ApplyUpdates / ApplyDeletions issued, each with its outcome and the kernel
+     state after it.
+   - `events_safe (want_of D) k ev`: for every command in ev, with kp/kn the kernel before/after it and every set n:
+       not Felix's name          -> kn !! n = kp !! n
+       desired, existed          -> still exists and is (a) unchanged, or (b) EXACTLY the desired parameters and
+                                    members, or (c) same parameters, members added are desired ones, members removed
+                                    are undesired ones
+       desired, did not exist    -> absent, or created empty with the desired parameters. *)
 From stdpp Require Import gmap.
 From Coq Require Import NArith.
-From Verif.C16 Require Import Model Spec Proofs.
+From Verif.C16 Require Import Model Spec Proofs ProofsSafe ProofsMain.
 Open Scope N_scope.
 
 (* Kernel: one command changes only the sets it names. *)
@@ -9,3 +24,59 @@ Theorem c16_command_is_local : forall k c k' n,
   exec k c = Some k' -> n ∉ cmd_names c -> k' !! n = k !! n.
 Proof. exact exec_other. Qed.
 Print Assumptions c16_command_is_local.
+
+(* Failures at any command + resyncs + any starting kernel: the model's bookkeeping invariant (names tracked are
+   Felix's, desired names are main-set names with a member tracker) and the agreement "what IPSets wants = what the
+   API calls asked for" hold in EVERY reachable state. *)
+Theorem c16_any_history : forall fx s k D,
+  reach fx s k D -> WF s /\ (forall n, wants s n = want_of D n).
+Proof. exact reach_inv. Qed.
+Print Assumptions c16_any_history.
+
+(* At every intermediate kernel state of every ApplyUpdates of every history: foreign sets untouched, desired sets
+   never destroyed, a desired set holds its old value or exactly its new value (swap) or moves member by member
+   toward the desired members with unchanged parameters. *)
+Theorem c16_swap_atomic : forall fx s k D obs budget s' k' ev,
+  reach fx s k D -> apply_updates fx obs budget k s = Some (s', k', ev) ->
+  events_safe (want_of D) k ev /\ k' = last_kernel k ev.
+Proof. exact updates_safe. Qed.
+Print Assumptions c16_swap_atomic.
+
+(* ... and of every ApplyDeletions. *)
+Theorem c16_deletions_safe : forall fx s k D tries s' k' ev rs,
+  reach fx s k D -> apply_deletions tries k s = Some (s', k', ev, rs) ->
+  events_safe (want_of D) k ev /\ k' = last_kernel k ev.
+Proof. exact deletions_safe. Qed.
+Print Assumptions c16_deletions_safe.
+
+(* The same in the oracle's terms: the per-command check of Spec.v (`step_ok`, the one applied to the
+   implementation's observed kernels) accepts every command of every model run. *)
+Theorem c16_model_meets_spec : forall D k ev, events_safe (want_of D) k ev -> cmds_ok D k ev = true.
+Proof. exact events_safe_bool. Qed.
+Print Assumptions c16_model_meets_spec.
+
+(* Sets that are not Felix's are identical after every single command and at the end. *)
+Theorem c16_foreign_untouched : forall W k ev n,
+  events_safe W k ev -> owned n = false ->
+  Forall (fun e : event => e.2 !! n = k !! n) ev /\ last_kernel k ev !! n = k !! n.
+Proof. exact safe_foreign. Qed.
+Print Assumptions c16_foreign_untouched.
+
+(* A desired set that exists is there after every single command: never destroyed while desired. *)
+Theorem c16_never_destroy_desired : forall W k ev n w,
+  events_safe W k ev -> owned n = true -> W n = Some w -> is_Some (k !! n) ->
+  Forall (fun e : event => is_Some (e.2 !! n)) ev.
+Proof. exact safe_not_destroyed. Qed.
+Print Assumptions c16_never_destroy_desired.
+
+(* Convergence of the temp-set-and-swap path, independent of what Felix believed about the kernel and of the
+   kernel's state: if the commands writeUpdates wrote for a metadata change all succeed, the main set is exactly
+   the desired set. *)
+Theorem c16_converges_swap_block : forall fx M lines s s' k i inj dm md mp d,
+  s_des s !! M = Some dm -> s_trk s !! M = Some (md, mp) ->
+  s_dp s !! M = Some d -> d <> clean dm ->
+  write_updates fx M lines false s = Some (s', false) ->
+  (run_script k lines i inj).2 = false ->
+  (run_script k lines i inj).1.2 !! M = Some (norm_meta dm, md).
+Proof. exact swap_block_exact. Qed.
+Print Assumptions c16_converges_swap_block.
